@@ -132,7 +132,7 @@ func partC04H(a *hcli.Args, rep *report.Report, univName string, u *schema.Unive
 	}
 	strs := shortStrings(sigma, L)
 	subst := []byte{'(', ')', ',', ':', '"', '{', '}', '[', ']', '\\', 0x00, 0xff, '%', '&', '=', ' '}
-	sq.Bounds = fmt.Sprintf("every method of every resource: the valid request sent by the generated client with (a0) an undeclared query parameter under three names (sorting first, last, in between) x 7 well-formed values: the request must reach the same method with the same arguments; (a) an extra query parameter whose value is each of the %d strings of <=%d symbols over %v, the whole query replaced by each of them, every truncation / single-byte edit of the valid query; (b) the entity key segment replaced by each of the strings, the entity key dropped from / added to the path, every key position of the path replaced on its own and every pair of key positions replaced together by all pairs of strings of <=2 symbols; (c0) unknown fields of 4 shapes added to the JSON body (top level, every entities value, every elements item): same method, same arguments; (c) every truncation and single-byte deletion / substitution (%d bytes) of the JSON body; (d) method / content-type / protocol-version header variants; (e) tunnelled envelopes (both parts, one part missing, none, foreign part, doubled, unterminated, truncated every 7 bytes, form-encoded, no boundary); oracle: no panic escapes, status < 500, no stack trace; when a declared parameter loses its parenthesis balance, or the body is a non-empty strict prefix that is not JSON: 4xx and no resource invocation", len(strs), L, sigma, len(subst))
+	sq.Bounds = fmt.Sprintf("every method of every resource: the valid request sent by the generated client with (a0) an undeclared query parameter under three names (sorting first, last, in between) x 7 well-formed values: the request must reach the same method with the same arguments; (a) an extra query parameter whose value is each of the %d strings of <=%d symbols over %v, the whole query replaced by each of them, every truncation / single-byte edit of the valid query; (b) the entity key segment replaced by each of the strings, the entity key dropped from / added to the path, every key position of the path replaced on its own and every pair of key positions replaced together by all pairs of strings of <=2 symbols; (c0) unknown fields of 4 shapes added to the JSON body (top level, every entities value, every elements item): same method, same arguments; (c1) the body sent chunked, also with a bad chunk size, a truncated chunk and a missing last chunk; (c) every truncation and single-byte deletion / substitution (%d bytes) of the JSON body; (d) method / content-type / protocol-version header variants; (e) tunnelled envelopes (both parts, one part missing, none, foreign part, doubled, unterminated, truncated every 7 bytes, form-encoded, no boundary); oracle: no panic escapes, status < 500, no stack trace; when a declared parameter loses its parenthesis balance, or the body is a non-empty strict prefix that is not JSON: 4xx and no resource invocation", len(strs), L, sigma, len(subst))
 	sr.Bounds = "every method of every resource: the valid response with every truncation / single-byte edit of its body, X-RestLi-Id and Location replaced by each short ROR2 string, error-header / status / content-type variants; oracle: the generated client call returns (value or error) and never panics"
 	w := NewWorld(u, DefaultConfig)
 	failq := func(kind string, r *schema.Resource, m *schema.Method, what, detail string, raw []byte) {
@@ -387,6 +387,25 @@ func partC04H(a *hcli.Args, rep *report.Report, univName string, u *schema.Unive
 							}
 						}
 					}
+				}
+			}
+			// (c1) the body sent in chunks: well-formed (same request), and with a malformed or truncated chunk stream
+			if len(body) > 0 {
+				var hs []string
+				for _, h := range headers {
+					if !strings.HasPrefix(strings.ToLower(h), "content-length:") {
+						hs = append(hs, h)
+					}
+				}
+				hs = append(hs, "Transfer-Encoding: chunked")
+				good := fmt.Sprintf("%x\r\n%s\r\n0\r\n\r\n", len(body), body)
+				send("body-chunked", joinRaw(line, hs, []byte(good)), false)
+				for name, chunks := range map[string]string{
+					"body-chunked-bad-size":  "ZZ\r\n" + string(body) + "\r\n0\r\n\r\n",
+					"body-chunked-truncated": fmt.Sprintf("%x\r\n%s", len(body)+10, body),
+					"body-chunked-no-end":    fmt.Sprintf("%x\r\n%s\r\n", len(body), body),
+				} {
+					send(name, joinRaw(line, hs, []byte(chunks)), false)
 				}
 			}
 			// (c) body
